@@ -202,7 +202,13 @@ impl Prop for C18 {
                 use gamedig::protocols::types::{ExtraRequestSettings, GatherToggle};
                 let game = gamedig::GAMES.get(id).unwrap();
                 let fam = family_of_game(game).unwrap();
-                let hosts: [Option<String>; 4] = [None, Some(String::new()), Some(crate::rsm::long_string(300)), Some("zürich.例え".to_string())];
+                // (long names: ASCII only, and with a two- / three-byte character straddling each of the byte offsets 253..257,
+                // i.e. around the 255 of the handshake's String(255))
+                let mut hosts: Vec<Option<String>> = vec![None, Some(String::new()), Some(crate::rsm::long_string(300)), Some("zürich.例え".to_string()), Some("é".repeat(200)), Some("例".repeat(100))];
+                for pad in 252 ..= 256usize {
+                    hosts.push(Some(format!("{}é{}", "a".repeat(pad), "b".repeat(20))));
+                    hosts.push(Some(format!("{}例{}", "a".repeat(pad), "b".repeat(20))));
+                }
                 let versions: [Option<i32>; 5] = [None, Some(i32::MIN), Some(-1), Some(0), Some(i32::MAX)];
                 let toggles: [Option<GatherToggle>; 4] = [None, Some(GatherToggle::Skip), Some(GatherToggle::Try), Some(GatherToggle::Enforce)];
                 let checks: [Option<bool>; 3] = [None, Some(true), Some(false)];
